@@ -512,4 +512,16 @@ MUTATIONS += [
     dict(id="w6-c16f", patch="seeded/C16f/patch.diff", expect={'C16': ['R14r:']}, allow_others=True),
     dict(id="q-r14r-tight-table", quiet=True, file="cirkit/templates/region_graph/algorithms/chow_liu.py", old='            data = torch.div(data, num_categories // num_bins, rounding_mode="floor")\n', new='            data = torch.div(data, num_categories // num_bins, rounding_mode="floor")\n            num_categories = (num_categories - 1) // (num_categories // num_bins) + 1\n', expect={}),
     dict(id="r14r-table-one-short", file="cirkit/templates/region_graph/algorithms/chow_liu.py", old='            data = torch.div(data, num_categories // num_bins, rounding_mode="floor")\n', new='            data = torch.div(data, num_categories // num_bins, rounding_mode="floor")\n            num_categories = (num_categories - 1) // (num_categories // num_bins)\n', expect={'C16': ['R14r:']}),
+    # ---- wave-8 rules: reverted repairs (D33, D35, D36) are reported again; behaviour-preserving twins stay silent
+    dict(id="r9u-leaf-root-keeps-input-layer", file="cirkit/templates/region_graph/graph.py", old="                    if region_outputs:\n                        node_to_layer[node] = input_sl\n                        continue\n", new="                    if True:\n                        node_to_layer[node] = input_sl\n                        continue\n", expect={"C16": ["R9u:"]}),
+    dict(id="r8m-mask-check-dropped", file=QUER, old="            if torch.any(integrate_vars_mask[:, ~in_scope]):\n                raise ValueError(\n                    \"The variables to marginalize must be a subset of the circuit scope\"\n                )\n", new="", expect={"C11": ["R8m:cirkit.backend.torch.queries.IntegrateQuery.__call__"], "C09": ["R8m:"]}),
+    dict(id="r14u-from-nary-no-dedup", file=SPAR, old="        p_nodes = list(dict.fromkeys(chain.from_iterable(p.nodes for p in p_graphs))) + [n]", new="        p_nodes = list(chain.from_iterable(p.nodes for p in p_graphs)) + [n]", expect={"C14": ["R14u:cirkit.symbolic.parameters.Parameter.from_nary"]}),
+    dict(id="r14u-from-nary-set-dedup", file=SPAR, old="        p_nodes = list(dict.fromkeys(chain.from_iterable(p.nodes for p in p_graphs))) + [n]", new="        p_nodes = list(set(chain.from_iterable(p.nodes for p in p_graphs))) + [n]", expect={"C14": ["R14u:cirkit.symbolic.parameters.Parameter.from_nary"]}),
+    dict(id="q-r14s-outgoings-mapping", quiet=True, file="cirkit/symbolic/circuit.py", old="    return topological_ordering(bfs(roots, incomings_fn=_operands_fn), incomings_fn=_operands_fn)", new="    circuits = list(bfs(roots, incomings_fn=_operands_fn))\n    derived = graph_nodes_outgoings(circuits, _operands_fn)\n    return topological_ordering(circuits, _operands_fn, lambda sc: derived.get(sc, []))", expect={}),
+    dict(id="r14s-outgoings-deduplicated", file="cirkit/utils/algorithms.py", old="            if ch in outgoings:\n                outgoings[ch].append(n)", new="            if ch in outgoings:\n                if n not in outgoings[ch]:\n                    outgoings[ch].append(n)", expect={"C18": ["R14s:cirkit.utils.algorithms.graph_nodes_outgoings"], "C01": ["R14s:"], "C04": ["R14s:"]}),
+    dict(id="q-r5h-fold-shift-ge", quiet=True, file=RINI, old="    axis = init.axis if init.axis < 0 else init.axis + 1", new="    axis = init.axis + 1 if init.axis >= 0 else init.axis", expect={}),
+    dict(id="r5h-normalise-gt", file=TNODES, old="        start_dim = start_dim if start_dim >= 0 else start_dim + len(in_shape)", new="        start_dim = start_dim if start_dim > 0 else start_dim + len(in_shape)", expect={"C14": ["R5h:"], "C17": ["R5h:"]}, allow_others=True),
+    dict(id="q-r14t-membership-in-values-set", quiet=True, file="cirkit/backend/torch/graph/optimize.py", old="                (m for m in matches if m in prioritized_module_matches.values()), None", new="                (m for m in matches if any(m is sel for sel in prioritized_module_matches.values())), None", expect={}),
+    dict(id="q-r10m-non-persistent-cache", quiet=True, patch="seeded/C19f/patch.diff", edits=[(TINPUT, '        self.register_buffer("_zero_log_partition", None)', '        self.register_buffer("_zero_log_partition", None, persistent=False)')], expect={}),
+    dict(id="q-r3g-slice-under-range-comparison", quiet=True, patch="seeded/C14g/patch.diff", edits=[(FOLD, "        elif cum_fold_i_idx[-1] - cum_fold_i_idx[0] + 1 == len(cum_fold_i_idx):", "        elif cum_fold_i_idx == list(range(cum_fold_i_idx[0], cum_fold_i_idx[-1] + 1)):")], expect={}),
 ]
